@@ -1,9 +1,43 @@
 import RegexVerif.Sexp
+import RegexVerif.Model.LRU
+import RegexVerif.Model.Pool
+import RegexVerif.Generated.Fields
 
 namespace RegexVerif.Driver
 open RegexVerif Sexp
 
-/-- protocol lines with head `c12` (stub) -/
-def handleC12 (_args : List Sexp) : String := "(unimplemented)"
+/-- run `getReplacerData` over a key sequence; after every call report the cache's key order
+    (most recent first).  Keys listed in `uncacheable` are longer than `MaxCachedReplacerDataBytes`. -/
+def lruTrace (maxSize : Nat) (uncacheable errs : List Nat) (ks : List Nat) : List (List Nat) :=
+  let parse : Nat → Except Unit Nat := fun k => if errs.contains k then .error () else .ok k
+  let cacheable : Nat → Bool := fun k => !uncacheable.contains k
+  let rec go (st : Option (LRU.Cache Nat Nat)) : List Nat → List (List Nat)
+    | [] => []
+    | k :: rest =>
+      let r := LRU.getReplacerData parse cacheable st k
+      (match r.2 with | some c => LRU.keys c.entries | none => []) :: go r.2 rest
+  go (if maxSize = 0 then none else some (LRU.empty maxSize)) ks
+
+/-- protocol lines with head `c12`:
+    `(c12 lru <maxSize> (uncacheable…) (unparsable…) (keys…))` ↦ `(ok (keys-after-call-1) (keys-after-call-2) …)`
+    `(c12 pool rune|byte <needed> <max>)` ↦ `(ok <class capacity>)` or `(ok -1)` when not pooled -/
+def handleC12 (args : List Sexp) : String :=
+  match args with
+  | [op, a, b, c, d] =>
+    match op.sym?, a.nat?, b.nats?, c.nats?, d.nats? with
+    | some "lru", some mx, some un, some er, some ks => toString (mk "ok" ((lruTrace mx un er ks).map ofNats))
+    | _, _, _, _, _ => "(bad-op)"
+  | [op, a, b, c] =>
+    match op.sym? with
+    | some "pool" =>
+      match a.sym?, b.nat?, c.int? with
+      | some which, some needed, some mx =>
+        let sizes := if which == "rune" then Generated.runePoolSizes else Generated.bytePoolSizes
+        match Pool.poolIndex sizes needed mx with
+        | some i => toString (mk "ok" [ofNat (sizes.getD i 0)])
+        | none => "(ok -1)"
+      | _, _, _ => "(bad-op)"
+    | _ => "(bad-op)"
+  | _ => "(bad-op)"
 
 end RegexVerif.Driver
